@@ -1,279 +1,35 @@
-// gen19 translates the hand-maintained tables of errors/grpc.go (grpcToErrors,
-// errorsToCode), the two default results (FromGRPCError, GRPCStatusCode) and
-// the list of sentinel variables of errors/errors.go into Gallina
-// (coqgen/Gen_errors.v).  coqgen/C19_Gen.v states the table theorems over the
-// generated definitions, so a wrong row in the Go source breaks a proof
-// obligation.
+// gen19 --repo DIR --out FILE
 //
-// Subset: the sentinels are a `var ( Name = os.ErrX | fmt.Errorf("literal") |
-// errors.New("literal") )` block with the names of the model's classes, each
-// bound to a distinct value; the tables are map literals whose keys/values are
-// `codes.<one of the 17 codes>`, a sentinel name or nil, without duplicate
-// keys; Is, FromGRPCError, GRPCStatusCode and GRPCWrap have exactly the bodies
-// the hand-written model follows (compared after printing with go/printer).
-// Anything else: exit status 1 with a message (the tie is then reported as
-// unavailable for this run).
+// Translates the hand-maintained tables of errors/grpc.go and the sentinel
+// list of errors/errors.go into Gallina: coqgen/Gen_errors.v.  The translator
+// itself is harness/internal/errgen (also used by the C19 driver to read which
+// classes have a code in the tree under test).  Exits non-zero with a message
+// when the fragment is outside the translated subset.
 package main
 
 import (
-	"bytes"
 	"flag"
 	"fmt"
-	"go/ast"
-	"go/parser"
-	"go/printer"
-	"go/token"
 	"os"
-	"path/filepath"
-	"regexp"
-	"strings"
+
+	"verifharness/internal/errgen"
 )
-
-var classNames = []string{"ErrExist", "ErrNotExist", "ErrClosed", "ErrInvalid", "ErrNotAuthorized", "ErrDataLoss",
-	"ErrCommunication", "ErrInternal", "ErrConflict", "ErrExhausted", "ErrUnimplemented", "ErrCanceled"}
-
-var codeNames = []string{"OK", "Canceled", "Unknown", "InvalidArgument", "DeadlineExceeded", "NotFound", "AlreadyExists",
-	"PermissionDenied", "ResourceExhausted", "FailedPrecondition", "Aborted", "OutOfRange", "Unimplemented", "Internal",
-	"Unavailable", "DataLoss", "Unauthenticated"}
-
-func isClass(n string) bool {
-	for _, c := range classNames {
-		if c == n {
-			return true
-		}
-	}
-	return false
-}
-
-func isCode(n string) bool {
-	for _, c := range codeNames {
-		if c == n {
-			return true
-		}
-	}
-	return false
-}
-
-func fail(format string, a ...any) {
-	fmt.Fprintf(os.Stderr, "gen19: outside the translator's subset: "+format+"\n", a...)
-	os.Exit(1)
-}
-
-var fset = token.NewFileSet()
-
-func src(n ast.Node) string {
-	var b bytes.Buffer
-	printer.Fprint(&b, fset, n)
-	return strings.Join(strings.Fields(b.String()), " ")
-}
-
-func parse(path string) *ast.File {
-	f, err := parser.ParseFile(fset, path, nil, 0)
-	if err != nil {
-		fail("%s does not parse: %v", path, err)
-	}
-	return f
-}
-
-// codes.X
-func codeOf(e ast.Expr, where string) string {
-	s, ok := e.(*ast.SelectorExpr)
-	if !ok {
-		fail("%s: %s is not of the form codes.<Code>", where, src(e))
-	}
-	x, ok := s.X.(*ast.Ident)
-	if !ok || x.Name != "codes" || !isCode(s.Sel.Name) {
-		fail("%s: %s is not one of the 17 codes", where, src(e))
-	}
-	return s.Sel.Name
-}
-
-// a sentinel name or nil
-func classOf(e ast.Expr, where string, allowNil bool) string {
-	id, ok := e.(*ast.Ident)
-	if !ok {
-		fail("%s: %s is not a sentinel name", where, src(e))
-	}
-	if id.Name == "nil" && allowNil {
-		return "None"
-	}
-	if !isClass(id.Name) {
-		fail("%s: %s is not a class of the model", where, id.Name)
-	}
-	if allowNil {
-		return "(Some " + id.Name + ")"
-	}
-	return id.Name
-}
-
-func findVar(f *ast.File, name string) ast.Expr {
-	for _, d := range f.Decls {
-		g, ok := d.(*ast.GenDecl)
-		if !ok || g.Tok != token.VAR {
-			continue
-		}
-		for _, sp := range g.Specs {
-			vs := sp.(*ast.ValueSpec)
-			for i, n := range vs.Names {
-				if n.Name == name {
-					if len(vs.Values) != len(vs.Names) {
-						fail("var %s has no initialiser of its own", name)
-					}
-					return vs.Values[i]
-				}
-			}
-		}
-	}
-	fail("var %s not found", name)
-	return nil
-}
-
-func mapRows(e ast.Expr, name, keyType, valType string) []*ast.KeyValueExpr {
-	cl, ok := e.(*ast.CompositeLit)
-	if !ok {
-		fail("%s is not a composite literal", name)
-	}
-	if t := src(cl.Type); t != "map["+keyType+"]"+valType {
-		fail("%s has type %s, expected map[%s]%s", name, t, keyType, valType)
-	}
-	var rows []*ast.KeyValueExpr
-	for _, el := range cl.Elts {
-		kv, ok := el.(*ast.KeyValueExpr)
-		if !ok {
-			fail("%s: element %s is not key: value", name, src(el))
-		}
-		rows = append(rows, kv)
-	}
-	return rows
-}
-
-func funcBody(f *ast.File, name string) string {
-	for _, d := range f.Decls {
-		fd, ok := d.(*ast.FuncDecl)
-		if ok && fd.Recv == nil && fd.Name.Name == name {
-			return src(fd.Type) + " " + src(fd.Body)
-		}
-	}
-	fail("func %s not found", name)
-	return ""
-}
-
-func mustMatch(body, name, pattern string) []string {
-	m := regexp.MustCompile("^" + pattern + "$").FindStringSubmatch(body)
-	if m == nil {
-		fail("func %s is not the function the model follows:\n  have: %s\n  want: %s", name, body, pattern)
-	}
-	return m
-}
 
 func main() {
 	repo := flag.String("repo", "/repo", "repository root")
 	out := flag.String("out", "", "output file")
 	flag.Parse()
 	if *out == "" {
-		fmt.Fprintln(os.Stderr, "--out required")
+		fmt.Fprintln(os.Stderr, "gen19: --out required")
 		os.Exit(2)
 	}
-	ef := parse(filepath.Join(*repo, "errors", "errors.go"))
-	gf := parse(filepath.Join(*repo, "errors", "grpc.go"))
-
-	// --- sentinels
-	var classes []string
-	seenVal := map[string]string{}
-	for _, d := range ef.Decls {
-		g, ok := d.(*ast.GenDecl)
-		if !ok || g.Tok != token.VAR {
-			continue
-		}
-		for _, sp := range g.Specs {
-			vs := sp.(*ast.ValueSpec)
-			for i, n := range vs.Names {
-				if !strings.HasPrefix(n.Name, "Err") {
-					continue
-				}
-				if !isClass(n.Name) {
-					fail("sentinel %s is not a class of the model", n.Name)
-				}
-				if len(vs.Values) != len(vs.Names) {
-					fail("sentinel %s has no initialiser of its own", n.Name)
-				}
-				v := src(vs.Values[i])
-				okv := regexp.MustCompile(`^os\.Err[A-Za-z]+$`).MatchString(v) ||
-					regexp.MustCompile(`^(fmt\.Errorf|errors\.New)\("[^"%\\]*"\)$`).MatchString(v)
-				if !okv {
-					fail("sentinel %s = %s is neither os.ErrX nor a fresh error with a literal text", n.Name, v)
-				}
-				if strings.HasPrefix(v, "os.") {
-					if prev, dup := seenVal[v]; dup {
-						fail("sentinels %s and %s are the same value %s", prev, n.Name, v)
-					}
-					seenVal[v] = n.Name
-				}
-				for _, c := range classes {
-					if c == n.Name {
-						fail("sentinel %s declared twice", n.Name)
-					}
-				}
-				classes = append(classes, n.Name)
-			}
-		}
+	coq, err := errgen.Translate(*repo)
+	if err != nil {
+		fmt.Fprintln(os.Stderr, "gen19:", err)
+		os.Exit(1)
 	}
-
-	// --- tables
-	var c2e, e2c []string
-	seen := map[string]bool{}
-	for _, kv := range mapRows(findVar(gf, "grpcToErrors"), "grpcToErrors", "codes.Code", "error") {
-		k := codeOf(kv.Key, "grpcToErrors key")
-		if seen[k] {
-			fail("grpcToErrors: duplicate key %s", k)
-		}
-		seen[k] = true
-		c2e = append(c2e, fmt.Sprintf("(%s, %s)", k, classOf(kv.Value, "grpcToErrors["+k+"]", true)))
-	}
-	seen = map[string]bool{}
-	for _, kv := range mapRows(findVar(gf, "errorsToCode"), "errorsToCode", "error", "codes.Code") {
-		c := classOf(kv.Key, "errorsToCode key", false)
-		if seen[c] {
-			fail("errorsToCode: duplicate key %s", c)
-		}
-		seen[c] = true
-		e2c = append(e2c, fmt.Sprintf("(%s, %s)", c, codeOf(kv.Value, "errorsToCode["+c+"]")))
-	}
-
-	// --- the functions around the tables
-	mustMatch(funcBody(ef, "Is"), "Is",
-		regexp.QuoteMeta("func(err, target error) bool { if errors.Is(err, target) { return true } return errors.Is(FromGRPCError(err), target) }"))
-	m := mustMatch(funcBody(gf, "FromGRPCError"), "FromGRPCError",
-		regexp.QuoteMeta("func(err error) error { if err, ok := grpcToErrors[status.Code(err)]; ok { return err } return ")+`(\w+)`+regexp.QuoteMeta(" }"))
-	defClass := classOf(&ast.Ident{Name: m[1]}, "FromGRPCError default", true)
-	m = mustMatch(funcBody(gf, "GRPCStatusCode"), "GRPCStatusCode",
-		regexp.QuoteMeta("func(err error) codes.Code { code := status.Code(err) if code != codes.Unknown { return code } "+
-			"if code, ok := errorsToCode[err]; ok { return code } for e, c := range errorsToCode { if errors.Is(err, e) { return c } } return codes.")+
-			`(\w+)`+regexp.QuoteMeta(" }"))
-	if !isCode(m[1]) {
-		fail("GRPCStatusCode default codes.%s is not one of the 17 codes", m[1])
-	}
-	defCode := m[1]
-	mustMatch(funcBody(gf, "GRPCWrap"), "GRPCWrap",
-		regexp.QuoteMeta("func(err error) error { if code := status.Code(err); code != codes.Unknown { return err } "+
-			"return status.Error(GRPCStatusCode(err), err.Error()) }"))
-
-	var sb strings.Builder
-	sb.WriteString("(* generated by harness/cmd/gen19 from errors/errors.go and errors/grpc.go -- do not edit *)\n")
-	sb.WriteString("From Coq Require Import List.\nFrom GL Require Import model.Errors.\nImport ListNotations.\n\n")
-	sb.WriteString("(* errors.go: the sentinel variables, in source order *)\n")
-	sb.WriteString("Definition gen_classes : list class :=\n  [" + strings.Join(classes, ";\n   ") + "].\n\n")
-	sb.WriteString("(* grpc.go: var grpcToErrors (None is nil) *)\n")
-	sb.WriteString("Definition gen_grpcToErrors : list (code * option class) :=\n  [" + strings.Join(c2e, ";\n   ") + "].\n\n")
-	sb.WriteString("(* grpc.go: var errorsToCode *)\n")
-	sb.WriteString("Definition gen_errorsToCode : list (class * code) :=\n  [" + strings.Join(e2c, ";\n   ") + "].\n\n")
-	sb.WriteString("(* grpc.go: FromGRPCError, result for a code that is not a key of grpcToErrors *)\n")
-	sb.WriteString("Definition gen_default_class : option class := " + strings.Trim(defClass, "()") + ".\n\n")
-	sb.WriteString("(* grpc.go: GRPCStatusCode, result when no row matches *)\n")
-	sb.WriteString("Definition gen_default_code : code := " + defCode + ".\n\n")
-	sb.WriteString("Definition gen_tables : tables :=\n  mkTables gen_grpcToErrors gen_errorsToCode gen_default_class gen_default_code.\n")
-	if err := os.WriteFile(*out, []byte(sb.String()), 0o644); err != nil {
-		fmt.Fprintln(os.Stderr, err)
+	if err := os.WriteFile(*out, []byte(coq), 0o644); err != nil {
+		fmt.Fprintln(os.Stderr, "gen19:", err)
 		os.Exit(2)
 	}
 }
